@@ -11,22 +11,22 @@ package hapsim
 //	HAPSIM_BUDGET_S  stop starting new runs after this many wall seconds
 
 import (
-	"runtime"
 	"bufio"
 	"crypto/sha1"
 	"encoding/hex"
 	"encoding/json"
 	"fmt"
 	"os"
+	"runtime"
 	"sort"
 	"strconv"
 	"strings"
 	"testing"
 	"time"
 
+	"github.com/go-logr/logr"
 	rt "github.com/jcmoraisjr/haproxy-ingress/zzsimrt"
 	ctrl "sigs.k8s.io/controller-runtime"
-	"github.com/go-logr/logr"
 )
 
 var watchdogWall = 25 * time.Second
@@ -179,7 +179,10 @@ func (r *Run) nontrivial() bool {
 	switch r.or.Property {
 	case "C12":
 		return len(r.firedFaults) >= 1 && p["converge_checked"] >= 1 && r.reconciles >= 2
-	case "C01", "C05", "C06", "C09", "C03", "C15", "C08", "C18", "C10":
+	case "C18":
+		// a protected request was judged after an incremental update
+		return p["auth_intercepted"]+p["auth_denied_outright"] >= 1 && r.reconciles >= 2
+	case "C01", "C05", "C06", "C09", "C03", "C15", "C08", "C10":
 		return p["fresh_compared"]+p["router_compared"]+p["model_compared"] >= 2 && r.reconciles >= 2
 	case "C02":
 		return p["effective_compared"] >= 1 && p["dyn_update_cmds"] >= 1
